@@ -26,9 +26,10 @@ def pick(draw, seq):
 
 
 @st.composite
-def number(draw, base: int, hi: int, fractional: bool):
+def number(draw, base: int, hi: int, fractional, is_dur: bool = False):
+    """fractional: False (whole stamps), True (fractional ts and dur) or "dur" (whole ts, fractional dur only)."""
     v = draw(st.integers(0, hi))
-    if not fractional:
+    if not fractional or (fractional == "dur" and not is_dur):
         return base + v
     frac = draw(st.sampled_from([0, 0, 1, 250, 500, 999, 123, 877]))
     return float(base) + v + frac / 1000.0
@@ -38,7 +39,7 @@ def number(draw, base: int, hi: int, fractional: bool):
 def complete_event(draw, rank: int, epoch: int, fractional: bool, names_host: List[str], names_dev: List[str]) -> Dict[str, Any]:
     side = pick(draw, ["host", "host", "device"])
     ts = draw(number(epoch, 40, fractional))
-    dur = draw(number(0, 12, fractional))
+    dur = draw(number(0, 12, fractional, True))
     if side == "host":
         name = pick(draw, names_host + ["op_" + draw(st.text(alphabet="abc", min_size=1, max_size=3))])
         cat = pick(draw, CATS_HOST) if not name.startswith("cuda") else "cuda_runtime"
@@ -93,12 +94,12 @@ def other_entry(draw, rank: int, epoch: int, fractional: bool) -> Dict[str, Any]
         return {"ph": "i", "s": "g", "name": "Iteration Start: PyTorch Profiler", "pid": "Traces", "tid": "Trace PyTorch Profiler", "ts": ts}
     if kind == "trace_span":
         return {"ph": "X", "cat": "Trace", "name": "PyTorch Profiler (0)", "pid": "Spans", "tid": "PyTorch Profiler", "ts": ts,
-                "dur": draw(number(1, 50, fractional)), "args": {"Op count": 0}}
+                "dur": draw(number(1, 50, fractional, True)), "args": {"Op count": 0}}
     if kind == "no_dur":
         return {"ph": "i", "cat": "cpu_instant_event", "name": "[memory]", "pid": 5000 + rank, "tid": 5000 + rank, "ts": ts,
                 "args": {"Bytes": 512}}
     if kind == "no_cat":
-        return {"ph": "X", "name": "uncategorised", "pid": 5000 + rank, "tid": 5000 + rank, "ts": ts, "dur": draw(number(0, 5, fractional))}
+        return {"ph": "X", "name": "uncategorised", "pid": 5000 + rank, "tid": 5000 + rank, "ts": ts, "dur": draw(number(0, 5, fractional, True))}
     if kind == "null_dur":
         return {"ph": "X", "cat": "cpu_op", "name": "aten::broken", "pid": 5000 + rank, "tid": 5000 + rank, "ts": ts, "dur": None, "args": {}}
     return {"ph": "C", "name": "GPU 0 Utilization", "pid": rank % 8, "ts": ts, "args": {"GPU Utilization": 0.5}}
@@ -110,7 +111,7 @@ def raw_rank(draw, rank: int, epoch: int, fractional: bool, every_entry_has_ts: 
     names_dev = list(draw(st.permutations(DEV_NAMES)))[: pick(draw, [2, 4, 8])]
     first_ts = draw(number(epoch, 40, fractional))
     events: List[Dict[str, Any]] = [{"ph": "X", "cat": "cpu_op", "name": pick(draw, vocab.CPU_OPS), "pid": 5000 + rank, "tid": 5000 + rank,
-                                     "ts": first_ts, "dur": draw(number(0, 10, fractional)), "args": {"External id": 1}}]
+                                     "ts": first_ts, "dur": draw(number(0, 10, fractional, True)), "args": {"External id": 1}}]
     n = pick(draw, [0, 1, 2, 4, 6, 9, 14])
     for _ in range(n):
         if pick(draw, [True, True, False]):
@@ -127,7 +128,7 @@ def raw_rank(draw, rank: int, epoch: int, fractional: bool, every_entry_has_ts: 
 def raw_case(draw) -> Dict[str, Any]:
     nranks = pick(draw, [1, 2, 2, 3, 9, 4, 2, 3, 2, 3, 4, 1])  # 9: more than 8 ranks -> the pooled loader sizes its pool by memory profiling
     epoch = pick(draw, EPOCHS)
-    fractional = pick(draw, [True, False])
+    fractional = pick(draw, [True, False, "dur", False])  # "dur": whole-number ts, fractional dur (no rounding happens then)
     # whole-numbered stamps beyond 2**53 (e.g. nanoseconds since 1970): exact as 64-bit integers, not as doubles.  Only full
     # loads of files whose every entry has a stamp are generated there (known finding F27 covers the rest of that region).
     huge = pick(draw, [False] * 9 + [True])
